@@ -76,53 +76,55 @@ func checkC13(c *Ctx) {
 
 	// C13.7 Get: every presence test of the store decides the answer
 	if get := p.Method("security/blockchain", "Blockchain", "Get"); get != nil {
-		k := NewKeyer(p, get)
 		n := 0
-		eachInstr(get, func(in ssa.Instruction) {
-			lk, ok := in.(*ssa.Lookup)
-			if !ok || !lk.CommaOk || !strings.HasSuffix(k.Key(lk.X), "Blockchain.blocks") {
-				return
-			}
-			n++
-			// the outcome (block, ok) must reach a branch condition or a return of Get, through phis / spills only
-			decides := map[int]bool{}
-			if lk.Referrers() != nil {
-				for _, r := range *lk.Referrers() {
-					ex, ok := r.(*ssa.Extract)
-					if !ok {
-						continue
-					}
-					seen := map[ssa.Value]bool{}
-					var walk func(v ssa.Value)
-					walk = func(v ssa.Value) {
-						if seen[v] || v.Referrers() == nil {
-							return
+		for _, hf := range helperClosure(p, get, 2) {
+			k := NewKeyer(p, hf)
+			eachInstr(hf, func(in ssa.Instruction) {
+				lk, ok := in.(*ssa.Lookup)
+				if !ok || !lk.CommaOk || !strings.HasSuffix(k.Key(lk.X), "Blockchain.blocks") {
+					return
+				}
+				n++
+				// the outcome (block, ok) must reach a branch condition or a return of Get, through phis / spills only
+				decides := map[int]bool{}
+				if lk.Referrers() != nil {
+					for _, r := range *lk.Referrers() {
+						ex, ok := r.(*ssa.Extract)
+						if !ok {
+							continue
 						}
-						seen[v] = true
-						for _, u := range *v.Referrers() {
-							switch x := u.(type) {
-							case *ssa.If, *ssa.Return:
-								decides[ex.Index] = true
-							case *ssa.Phi:
-								walk(x)
-							case *ssa.UnOp:
-								walk(x)
-							case *ssa.Store:
-								if x.Val == v {
-									if a, ok := x.Addr.(*ssa.Alloc); ok {
-										walk(a)
+						seen := map[ssa.Value]bool{}
+						var walk func(v ssa.Value)
+						walk = func(v ssa.Value) {
+							if seen[v] || v.Referrers() == nil {
+								return
+							}
+							seen[v] = true
+							for _, u := range *v.Referrers() {
+								switch x := u.(type) {
+								case *ssa.If, *ssa.Return:
+									decides[ex.Index] = true
+								case *ssa.Phi:
+									walk(x)
+								case *ssa.UnOp:
+									walk(x)
+								case *ssa.Store:
+									if x.Val == v {
+										if a, ok := x.Addr.(*ssa.Alloc); ok {
+											walk(a)
+										}
 									}
 								}
 							}
 						}
+						walk(ex)
 					}
-					walk(ex)
 				}
-			}
-			c.Check(decides[0] && decides[1], "C13.7", "Get: a presence test of the store decides the answer", p.InstrPos(in),
-				"the looked-up block and its presence flag both flow into Get's result / result branch",
-				"the outcome of this lookup of blocks[hash] does not reach Get's result (block used: "+boolStr(decides[0])+", presence used: "+boolStr(decides[1])+"): a block that is in the store is reported as missing, so Extends denies a real ancestor")
-		})
+				c.Check(decides[0] && decides[1], "C13.7", "Get: a presence test of the store decides the answer", p.InstrPos(in),
+					"the looked-up block and its presence flag both flow into Get's result / result branch",
+					"the outcome of this lookup of blocks[hash] does not reach Get's result (block used: "+boolStr(decides[0])+", presence used: "+boolStr(decides[1])+"): a block that is in the store is reported as missing, so Extends denies a real ancestor")
+			})
+		}
 		if n < 2 {
 			c.Unresolved("C13.7", "Get", "expected the lookup before the fetch and the re-check after a failed fetch; found "+itoa(n))
 		}
